@@ -264,6 +264,11 @@ class Locals:
                 b = payload_binder(x["pat"])
                 if b is not None:
                     self.payload_defs[b["id"]] = x["init"]
+            if x["k"] == "Let" and x.get("els") is not None and x.get("init") is not None:
+                # `let Some(x) = e else { .. };` binds the payload of e like `if let`
+                b = payload_binder(x["pat"])
+                if b is not None:
+                    self.payload_defs[b["id"]] = x["init"]
             if x["k"] == "Match":
                 for a in x["arms"]:
                     b = payload_binder(a["pat"])
